@@ -551,6 +551,10 @@ func c20Run(out *Out, c IterCase) {
 				out.Ev("Count", "n", n)
 				return
 			}
+			if strings.HasSuffix(c.Whole, ".Min") || strings.HasSuffix(c.Whole, ".Max") {
+				extremeFamily(out, c.Whole, itL)
+				return
+			}
 			if strings.Contains(c.Whole, "Fold") && c.Whole != "Fold" {
 				foldFamily(out, c.Whole, itL, len(c.Src)+len(c.Calls)+len(c.Pipe))
 				return
@@ -631,7 +635,34 @@ var ctorsUnordered = []string{"hamt.Map", "hamt.Keys", "hamt.Values", "hamt.Set"
 var wholes = []string{"", "", "ToSeq", "iterator.ToSeq", "ToSlice", "seq.Collect", "ToList", "All", "Foreach", "Fold", "NextOption",
 	"iterator.FoldTry", "iterator.FoldOption", "iterator.FoldError", "iterator.FoldRight",
 	"list.Fold", "list.FoldLeft", "list.FoldTry", "list.FoldOption", "list.FoldError", "list.FoldRight", "list.FoldMap",
-	"seq.Fold", "seq.FoldTry", "seq.FoldOption", "seq.FoldError", "seq.FoldRight", "seq.FoldMap"}
+	"seq.Fold", "seq.FoldTry", "seq.FoldOption", "seq.FoldError", "seq.FoldRight", "seq.FoldMap",
+	"iterator.Min", "iterator.Max", "list.Min", "list.Max", "seq.Min", "seq.Max"}
+
+// Min / Max of iterator, list and seq under a coarse order (elements with the same key (v+100)/2 are tied but distinguishable):
+// all three must pick the same element, the one the eager reference picks
+func extremeFamily(out *Out, op string, it fp.Iterator[int]) {
+	coarse := ord.ContraMap(ord.Given[int](), func(v int) int { return (v + 100) / 2 })
+	var r fp.Option[int]
+	switch op {
+	case "iterator.Min":
+		r = iterator.Min(it, coarse)
+	case "iterator.Max":
+		r = iterator.Max(it, coarse)
+	case "list.Min":
+		r = list.Min(iterator.ToList(it), coarse)
+	case "list.Max":
+		r = list.Max(iterator.ToList(it), coarse)
+	case "seq.Min":
+		r = seq.Min(it.ToSeq(), coarse)
+	case "seq.Max":
+		r = seq.Max(it.ToSeq(), coarse)
+	}
+	res := []int{}
+	if r.IsDefined() {
+		res = append(res, r.Get())
+	}
+	out.Ev("Extreme", "op", op, "out", res)
+}
 
 // the Fold family of iterator / list / seq: the step function fails on the first element equal to stop (never: a value no element has);
 // the elements folded before that and whether the fold reported the failure are logged
